@@ -93,6 +93,12 @@ pub struct ReqView {
     pub initial: u64,
 }
 
+// field-wise equality of request views (sequences compared extensionally)
+pub open spec fn same_req(a: ReqView, b: ReqView) -> bool {
+    a.kind == b.kind && a.header == b.header && a.key =~= b.key && a.value =~= b.value && a.flags == b.flags
+    && a.expiration == b.expiration && a.delta == b.delta && a.initial == b.initial
+}
+
 pub open spec fn rv(kind: RK, header: binary::RequestHeader, key: Seq<u8>, value: Seq<u8>, flags: u32, expiration: u32, delta: u64, initial: u64) -> ReqView {
     ReqView { kind, header, key, value, flags, expiration, delta, initial }
 }
@@ -175,10 +181,10 @@ pub open spec fn too_large_req(h: binary::RequestHeader) -> ReqView {
 // represents it, so both `Stats` and `Version` are accepted for it (permissive on purpose).
 pub open spec fn req_matches(x: BinaryRequest, h: binary::RequestHeader, b: Seq<u8>) -> bool {
     if h.opcode == 0x10 {
-        req_view(x) =~~= rv(RK::Stats, h, Seq::empty(), Seq::empty(), 0, 0, 0, 0)
-        || req_view(x) =~~= rv(RK::Version, h, Seq::empty(), Seq::empty(), 0, 0, 0, 0)
+        same_req(req_view(x), rv(RK::Stats, h, Seq::empty(), Seq::empty(), 0, 0, 0, 0))
+        || same_req(req_view(x), rv(RK::Version, h, Seq::empty(), Seq::empty(), 0, 0, 0, 0))
     } else {
-        req_view(x) =~~= expected_req(h, b)
+        same_req(req_view(x), expected_req(h, b))
     }
 }
 
